@@ -419,6 +419,23 @@ def r7_defaults(ctx):
                           ("PluralityVeto.__init__", "tiebreak", "None")])
 
 
+def r8_no_replay_in_step(ctx):
+    """A step that re-derives its input by replaying earlier rounds (self.get_profile(k), k > 0, or an unbounded
+    cumulative query) re-runs those rounds' random tiebreaks: the replay draws again, so the round that is recorded and
+    the profile the step works on need not agree with the recorded resolution.  Decided by C09.R3's query census."""
+    from rules import c09
+    sub = type(ctx)(ctx.prog, ctx.prop, ctx.tier)
+    c09.r3_replay_independent(sub)
+    n = 0
+    for o in sub.obs:
+        if "consults" in o.construct or "replay-safe query" in o.construct or "get_profile" in o.construct:
+            o.rule = "C10.R8"
+            ctx.obs.append(o)
+            n += 1
+    if n < 2:
+        ctx.vanished(f"replay queries in step logic: only {n} found")
+
+
 RULES = [
     ("C10.R1", r1_rng_census, 20, "RNG census: draws only at the documented sites; deterministic rules reach only tiebreak_set's draw"),
     ("C10.R2", r2_only_in_tie, 6, "every tiebreak_set call is dominated by a tie test on its argument (or the overshoot test)"),
@@ -426,6 +443,7 @@ RULES = [
     ("C10.R4", r4_fallback, 7, "scored tiebreaks use the right score restricted to the tie; random fallback only among still-tied"),
     ("C10.R7", r7_defaults, 13, "no tiebreak unless requested: documented defaults of the tiebreak parameters"),
     ("C10.R6", r6_genuine_ties, 2, "recorded ties are genuine: candidates are grouped by exact equal score"),
+    ("C10.R8", r8_no_replay_in_step, 2, "steps never re-derive their input by replaying earlier (possibly tie-broken) rounds"),
     ("C10.R5", r5_groups_obey, 4, "selector splits the resolution prefix/suffix at one point; untied exit shape"),
 ]
 
